@@ -658,6 +658,7 @@ int vnacal_save(vnacal_t *vcp, const char *pathname)
     yaml_tag_directive_t tags[1];
     yaml_emitter_t emitter;
     bool delete_document = false;
+    bool delete_emitter = false;
     int t_root, t_properties, t_calibrations;
 
     if ((fp = fopen(pathname, "w")) == NULL) {
@@ -933,6 +934,7 @@ int vnacal_save(vnacal_t *vcp, const char *pathname)
 		vcp->vc_filename, strerror(errno));
 	goto error;
     }
+    delete_emitter = true;
     yaml_emitter_set_output_file(&emitter, fp);
     yaml_emitter_set_encoding(&emitter, YAML_UTF8_ENCODING);
     yaml_emitter_set_canonical(&emitter, 0);
@@ -966,6 +968,7 @@ int vnacal_save(vnacal_t *vcp, const char *pathname)
 	goto error;
     }
     (void)yaml_emitter_delete(&emitter);
+    delete_emitter = false;
     if (fclose(fp) == -1) {
 	fp = NULL;		/* closed, even though it failed */
 	_vnacal_error(vcp, VNAERR_SYSTEM, "fclose: %s: %s",
@@ -975,6 +978,9 @@ int vnacal_save(vnacal_t *vcp, const char *pathname)
     return 0;
 
 error:
+    if (delete_emitter) {
+	(void)yaml_emitter_delete(&emitter);
+    }
     if (delete_document) {
 	(void)yaml_document_delete(&document);
     }
